@@ -28,9 +28,16 @@ def iterations(evs: List[Ev]) -> Dict[int, int]:
                 if a <= e.ts < b:
                     v = n
             it[e.id] = v
+    # several device activities may carry the id of ONE launch call (CUDA graph replay): each of them is launched by that call
+    hosts_of: Dict[int, List[int]] = {}
+    for e in evs:
+        if e.corr != -1 and not e.device_side:
+            hosts_of.setdefault(e.corr, []).append(e.id)
     for e in evs:
         if e.stream > 0:
             l = link[e.id]
+            if l == 0 and e.corr != -1 and len(hosts_of.get(e.corr, [])) == 1:
+                l = hosts_of[e.corr][0]
             it[e.id] = it.get(l, -1) if l > 0 else -1
     for e in evs:
         it.setdefault(e.id, -1)          # documented rule 3: anything else (e.g. stream 0) is -1
